@@ -282,8 +282,28 @@ def reverse(ck, rng, orc, cap, i):
                  index=rng.choice([1, 9, (rng.randrange(2 ** 20) << 3) | 1, (2 ** 29 - 1) << 3 | 1]), proto=rng.choice([50, 51]), mode=rng.choice([0, 1]), extra=rng.choice([0, 1]))
         trunc = rng.choice([0, 0, 0, 16, 100, 296, 300, 360])
         msg = bytes.fromhex(orc.cmd('A ' + ' '.join(f'{k}={v_}' for k, v_ in f.items()) + (f' truncate={trunc}' if trunc else ''))['hex'])
+        order = 'as-built'
+        if not trunc and i % 2:
+            # netlink attributes carry their type: the same message with the template BEHIND other (4-aligned) attributes must decode to the same values
+            import struct as _st
+            area, attrs_, off = msg[16 + 280:], [], 0
+            while off + 4 <= len(area):
+                ln, ty = _st.unpack_from('=HH', area, off)
+                if ln < 4:
+                    break
+                attrs_.append((ty, area[off:off + ((ln + 3) & ~3)], ln % 4 == 0))
+                off += (ln + 3) & ~3
+            tm_ = [a_ for a_ in attrs_ if a_[0] == 5]
+            if tm_:
+                front = [a_[1] for a_ in attrs_ if a_[0] != 5 and a_[2]] + [_st.pack('=HHI', 8, 31, 0)]
+                back = [a_[1] for a_ in attrs_ if a_[0] != 5 and not a_[2]]
+                rng.shuffle(front)
+                new_area = b''.join(front) + tm_[0][1] + b''.join(back)
+                msg = _st.pack('=I', 16 + 280 + len(new_area)) + msg[4:16 + 280] + new_area
+                order = 'template-behind-other-attributes'
+                ck.count('reverse.ACQUIRE.template_not_first')
         extra_tail = gen.rb(rng, rng.choice([0, 0, 7, 64]))
-        case = {'kind': 'acquire', 'fields': {k: str(v_) for k, v_ in f.items()}, 'truncate': trunc, 'raw': msg + extra_tail}
+        case = {'kind': 'acquire', 'attribute_order': order, 'fields': {k: str(v_) for k, v_ in f.items()}, 'truncate': trunc, 'raw': msg + extra_tail}
         ck.count('reverse.ACQUIRE' + ('.truncated' if trunc else ''))
         ck.nontrivial(('acquire', v, vs, f['mode'], f['extra'], trunc))
         try:
